@@ -65,7 +65,7 @@ func VerifH24Translate() {
 	first := keys[:nk-1]
 	var ids1 []uint64
 	var err error
-	if len(first) > 0 {
+	if len(first) > 0 && verifBound("batches", 2) > 1 && verifChoice("twobatches", 2) == 1 {
 		ids1, err = s.TranslateColumnsToUint64("i", first)
 		verifAssert(err == nil, "translate batch 1: no error")
 	}
@@ -102,7 +102,8 @@ func VerifH24Translate() {
 		s2.n += n
 		verifAssert(s2.applyEntry(&entry, offset) == nil, "replay: entry applies")
 	}
-	for i := range keys {
+	{
+		i := verifChoice("replay.probe", len(keys))
 		got, err := s2.TranslateColumnsToUint64("i", []string{keys[i]})
 		verifAssert(err == nil, "replayed store: no error")
 		verifAssert(len(got) == 1 && got[0] == ids[i], "replayed store has the identical mapping")
